@@ -655,23 +655,14 @@ fn format_binary_op_multiline(
 
         // Check if the first line of the whole expression fits
         // (for lambdas with do blocks, this would be "left via i => do {")
-        let first_line_of_right = right_str.lines().next().unwrap_or(&right_str);
+        let first_line_of_right = right_str.split('\n').next().unwrap_or(&right_str);
         let first_line_combined = format!("{} {} {}", left_str, op_str, first_line_of_right);
 
         if indent + first_line_combined.len() <= max_cols {
-            // The opening line fits! Return the full formatted expression
-            // If right_str is multi-line, this will preserve that structure
-            if right_str.contains('\n') {
-                // Multi-line lambda (like with do block)
-                let remaining_lines = right_str.lines().skip(1).collect::<Vec<_>>().join("\n");
-                return format!(
-                    "{} {} {}\n{}",
-                    left_str, op_str, first_line_of_right, remaining_lines
-                );
-            } else {
-                // Single-line lambda
-                return format!("{} {} {}", left_str, op_str, right_str);
-            }
+            // The opening line fits! Return the full formatted expression; a multi-line
+            // lambda (like with do block) keeps its structure. The text is used as it is:
+            // it may contain string literals, whose line endings are part of their value.
+            return format!("{} {} {}", left_str, op_str, right_str);
         }
 
         // If it doesn't fit, break before the operator (keep operator with right operand);
